@@ -36,7 +36,7 @@ write_bigint = Fn(
     ensures=[
         C("msb_first", "forall|j: nat| index <= j < index + bigint.size->0 ==> #[trigger] bit_of(final(self).v(), j) == bit_of(bigint.val(), (bigint.size->0 - 1 - (j - index)) as nat)", ["C01", "C04"]),
         C("frame", "forall|j: nat| !(index <= j < index + bigint.size->0) ==> #[trigger] bit_of(final(self).v(), j) == bit_of(old(self).v(), j)", ["C06", "C01"]),
-        C("len", "final(self).len == (if index + bigint.size->0 > old(self).len { (index + bigint.size->0) as usize } else { old(self).len })", ["C06"]),
+        C("len_is_last_written_bit", "final(self).len == (if bigint.size->0 > 0 && index + bigint.size->0 > old(self).len { (index + bigint.size->0) as usize } else { old(self).len })", ["C06"]),
         C("spans_kept", "final(self).spans == old(self).spans", ["C12"]),
         C("wf", "final(self).wf()", ["C06"]),
     ],
@@ -50,7 +50,7 @@ write_bigint = Fn(
     inserts=[
         Insert("        for i in 0..size", "        proof { assume(index + size <= usize::MAX); }\n", where="before", finding="D9e",
                why="finding guard: output position + item size overflows usize (known finding D9e)"),
-        Insert("        if index + size > self.len", "        let ghost mid = self.v();\n", where="before"),
+        Insert("        if size > 0 && index + size > self.len", "        let ghost mid = self.v();\n", where="before"),
         Insert("            self.len = index + size;\n        }", "\n        proof { assert(self.v() == mid); }\n", where="after"),
     ])
 
@@ -62,7 +62,7 @@ write_bigint_with_span = Fn(
     ensures=[
         C("msb_first", "forall|j: nat| offset <= j < offset + bigint.size->0 ==> #[trigger] bit_of(final(self).v(), j) == bit_of(bigint.val(), (bigint.size->0 - 1 - (j - offset)) as nat)", ["C01", "C12"]),
         C("frame", "forall|j: nat| !(offset <= j < offset + bigint.size->0) ==> #[trigger] bit_of(final(self).v(), j) == bit_of(old(self).v(), j)", ["C06"]),
-        C("len", "final(self).len == (if offset + bigint.size->0 > old(self).len { (offset + bigint.size->0) as usize } else { old(self).len })", ["C06"]),
+        C("len_is_last_written_bit", "final(self).len == (if bigint.size->0 > 0 && offset + bigint.size->0 > old(self).len { (offset + bigint.size->0) as usize } else { old(self).len })", ["C06"]),
         C("one_span_recorded", SPAN_PUSHED % ("Some(offset)", "bigint.size->0"), ["C12"]),
         C("wf", "final(self).wf()", ["C06"]),
     ],
